@@ -548,3 +548,37 @@ package s3db
 //@   loop 1 invariant forall i int :: imp(visited(i), has(values, i))
 //@   loop 1 invariant forall k string :: has(new.ColumnValues, k) == (has(c.ColumnIndexByName, k) && visited(colIdx(c, k)) && colIdx(c, k) != c.KeyCol)
 //@   loop 1 invariant forall k string :: imp(has(new.ColumnValues, k), new.ColumnValues[k] != nil && fresh(new.ColumnValues[k]) && new.ColumnValues[k].UpdateOffset == nil && tagged(new.ColumnValues[k].Value, values[colIdx(c, k)]))
+
+// INSERT at time t: rejected (constraint failure, table unchanged) when the key
+// is NULL or a live row has the key or the key was deleted at or after t;
+// otherwise the row becomes live with status time t and every listed column
+// assigned at t (values older than t are reset by the merge).
+//@ spec insDelta(t time.Time, p bool) AbsRow = AbsRow{D: false, Dt: ns(t), P: p, Ut: ite(p, ns(t), 0), V: 0}
+//@ spec keyTaken(had bool, e crdt.Value, t time.Time) bool = had && !tomb(e) && (!rowOf(e.Value).Deleted || !(dtime(rowOf(e.Value), tm(e.ModEpochNanos)) < ns(t)))
+
+//@ func (*VirtualTable).Insert
+//@   requires vtOK(c) && stmtCtx(ctx) && !c.usesRowID && c.ColumnNameByIndex != nil && c.ColumnIndexByName != nil
+//@   requires forall a int, k string :: tableOK(c, k, a)
+//@   requires forall i int :: imp(has(c.ColumnNameByIndex, i), has(c.ColumnIndexByName, c.ColumnNameByIndex[i]) && c.ColumnIndexByName[c.ColumnNameByIndex[i]] == i)
+//@   requires forall k string :: imp(has(c.ColumnIndexByName, k), has(c.ColumnNameByIndex, c.ColumnIndexByName[k]) && c.ColumnNameByIndex[c.ColumnIndexByName[k]] == k)
+//@   requires forall i int :: imp(has(values, i), has(c.ColumnNameByIndex, i) && sqlTyped(values[i]))
+//@   any col string
+//@   modifies *c.Tree.Root.crdt.Mast
+//@   ensures no-key: imp(!has(values, c.KeyCol), err != nil && *c.Tree.Root.crdt.Mast == old(*c.Tree.Root.crdt.Mast))
+//@   ensures not-null: imp(has(values, c.KeyCol) && values[c.KeyCol] == nil, err == ErrS3DBConstraintNotNull && *c.Tree.Root.crdt.Mast == old(*c.Tree.Root.crdt.Mast))
+//@   ensures unique: imp(has(values, c.KeyCol) && values[c.KeyCol] != nil && hasWT(ctx) && old(keyTaken(has(tree(c), akeygo(values[c.KeyCol])), tree(c)[akeygo(values[c.KeyCol])], wtOf(ctx))),
+//@       (err == ErrS3DBConstraintPrimaryKey || err != nil) && *c.Tree.Root.crdt.Mast == old(*c.Tree.Root.crdt.Mast))
+//@   ensures unique-code: imp(err == nil && hasWT(ctx), !old(keyTaken(has(tree(c), akeygo(values[c.KeyCol])), tree(c)[akeygo(values[c.KeyCol])], wtOf(ctx))))
+//@   ensures readonly: imp(c.Tree.Root.readonly, err != nil && *c.Tree.Root.crdt.Mast == old(*c.Tree.Root.crdt.Mast))
+//@   ensures applied: imp(err == nil && hasWT(ctx) && stmtWins(old(has(tree(c), akeygo(values[c.KeyCol]))), old(tree(c)[akeygo(values[c.KeyCol])]), wtOf(ctx)),
+//@       has(tree(c), akeygo(values[c.KeyCol])) && tree(c)[akeygo(values[c.KeyCol])].ModEpochNanos == ns(wtOf(ctx)) && !tomb(tree(c)[akeygo(values[c.KeyCol])]) && entryOK(tree(c)[akeygo(values[c.KeyCol])], col) &&
+//@       eqNoV(absRow(rowOf(tree(c)[akeygo(values[c.KeyCol])].Value), wtOf(ctx), col), M(old(oldAbs(has(tree(c), akeygo(values[c.KeyCol])), tree(c)[akeygo(values[c.KeyCol])], col)), insDelta(wtOf(ctx), assigns(c, values, col)))))
+//@   ensures value-new: imp(err == nil && hasWT(ctx) && stmtWins(old(has(tree(c), akeygo(values[c.KeyCol]))), old(tree(c)[akeygo(values[c.KeyCol])]), wtOf(ctx)) && assigns(c, values, col) &&
+//@       mPick2(old(oldAbs(has(tree(c), akeygo(values[c.KeyCol])), tree(c)[akeygo(values[c.KeyCol])], col)), insDelta(wtOf(ctx), true)),
+//@       has(rowOf(tree(c)[akeygo(values[c.KeyCol])].Value).ColumnValues, col) && tagged(rowOf(tree(c)[akeygo(values[c.KeyCol])].Value).ColumnValues[col].Value, values[colIdx(c, col)]))
+//@   ensures others: forall a int :: imp(err == nil && a != akeygo(values[c.KeyCol]), has(tree(c), a) == old(has(tree(c), a)) && tree(c)[a] == old(tree(c)[a]))
+//@   loop 1 modifies contents(new.ColumnValues)
+//@   loop 1 invariant new.ColumnValues != nil && fresh(new.ColumnValues) && !new.Deleted && new.DeleteUpdateOffset == nil
+//@   loop 1 invariant forall i int :: imp(visited(i), has(values, i))
+//@   loop 1 invariant forall k string :: has(new.ColumnValues, k) == (has(c.ColumnIndexByName, k) && visited(colIdx(c, k)) && colIdx(c, k) != c.KeyCol)
+//@   loop 1 invariant forall k string :: imp(has(new.ColumnValues, k), new.ColumnValues[k] != nil && fresh(new.ColumnValues[k]) && new.ColumnValues[k].UpdateOffset == nil && tagged(new.ColumnValues[k].Value, values[colIdx(c, k)]))
